@@ -57,7 +57,7 @@ def build(ctx):
     app = mod('app', mod('outfmt', mod('model', "use crate::portfolio::render::RenderTable;\n" + om.text())))
     d = os.path.join(os.path.dirname(os.path.dirname(os.path.abspath(__file__))), 'shim')
     ustubs = open(os.path.join(d, 'util_stubs.rs')).read()
-    extra_head = (open(os.path.join(d, 'csv_stubs.rs')).read() + open(os.path.join(d, 'office_stubs.rs')).read()
+    extra_head = (open(os.path.join(d, 'csv_stubs.rs')).read() + open(os.path.join(d, 'office_stubs.rs')).read() + open(os.path.join(d, 'csvw_stubs.rs')).read()
                   + open(os.path.join(d, 'xc_stubs.rs')).read() + open(os.path.join(d, 'wr_stubs.rs')).read())
     return qtu.build(ctx, extra_per=mod('tx_export_convert_impl', use_x + x.text()), extra_util=ustubs,
                      extra_portfolio=mod('io', drvu.tx_csv_part(ctx)) + mod('render', rd.text()),
